@@ -45,6 +45,8 @@ Inductive obs :=
 Inductive case :=
 | CEncode (v : json) (tb : ftable) (out : string)   (* encode_cel(v) = out *)
 | CEval (t : string) (o : obs)                      (* compile/evaluate of text t *)
+| CEvalImg (t : string) (o : obs)                   (* same, t = encode_cel of a value meeting the
+                                                       hypotheses: the model may not decline it *)
 | CNumeral (t : string) (k : option nkind)          (* _NUMERAL.fullmatch, int vs float *)
 | CFloat (t : string) (r : option (Z * Z))          (* float(t): finite dyadic or inf *)
 | CInt (t : string) (z : Z).                        (* int(t) *)
@@ -58,6 +60,11 @@ Definition check_case (c : case) : bool :=
       | ROk v, OVal w => json_same v w
       | RParse, OParse => true
       | REval, OEval => true
+      | _, _ => false
+      end
+  | CEvalImg t o =>
+      match eval_lit (txt t), o with
+      | ROk v, OVal w => json_same v w
       | _, _ => false
       end
   | CNumeral t k => opt_eqb nkind_eqb (numeral_kind (txt t)) k
